@@ -15,7 +15,16 @@ def main():
             return False
     Stream = FalsyStream if spec.get('falsy_streams') else io.TextIOWrapper
     # like a real stdout (file, pipe): strict; some worlds ask for a narrower encoding (LANG=C terminals)
-    cap = Stream(io.BytesIO(), encoding=spec.get('stdout_encoding', 'utf-8'), errors='strict', write_through=True)
+    class SlowBytesIO(io.BytesIO):
+        """A stdout that takes its time (a pipe to a slow reader, a terminal over a slow link): still takes everything."""
+        def writelines(self, lines):
+            lines = list(lines)
+            if lines:
+                import time
+                time.sleep(spec['slow_stdout'])
+            return io.BytesIO.writelines(self, lines)
+    cap = Stream(SlowBytesIO() if spec.get('slow_stdout') else io.BytesIO(), encoding=spec.get('stdout_encoding', 'utf-8'),
+                 errors='strict', write_through=True)
     cap_err = Stream(io.BytesIO(), encoding='utf-8', errors='backslashreplace', write_through=True)
     cap._vw_orig = True
     cap_err._vw_orig = True
